@@ -671,6 +671,11 @@ Proof.
   (* liveness: everything whose conditions hold is reported *)
   assert (Hstep : delay_step dl m (map ev_of evs) = 0).
   { unfold delay_step. rewrite (vu_sync _ _ HU), Esync. cbn [negb].
+    assert (H127 : has_ev (map ev_of evs)
+                     (fun e => ((e_kind e =? 1) || (e_kind e =? 2)) && mem (e_proof e) (m_chain m)) = false).
+    { apply has_ev_false_map. intros e He. destruct e as [t s|t s|h b]; [destruct (Hnotx t s He)| |reflexivity].
+      cbn [ev_of e_kind e_proof Z.eqb Pos.eqb orb andb]. apply (Hcnf t s). right. exact He. }
+    rewrite H127.
     match goal with |- (if ?c then _ else _) = _ => assert (Hc : c = false); [|rewrite Hc; reflexivity] end.
     apply existsb_false_iff. intros t Ht.
     destruct (mem t (m_vnow m)) eqn:C1; [|reflexivity].
